@@ -28,7 +28,19 @@ def run(functions, enums, configs, budget_s=None):
     for cfg in configs:
         sc = LoopScenario(functions, enums, **cfg)
         n = 0
-        for leaf in sc.explore():
+
+        def leaves(sc=sc, cfg=cfg):
+            # an unsupported construct met in one configuration makes the run inconclusive but does not hide what the
+            # paths explored so far (and the other configurations) show
+            try:
+                t_cfg = time.time()
+                for lf in sc.explore():
+                    yield lf
+                    if time.time() - t_cfg > cfg.get('max_seconds', 900):
+                        raise Unsupported(f"time budget of the configuration exhausted ({cfg.get('max_seconds', 900)} s): a change to the loop made its path space explode")
+            except Unsupported as ex:
+                stats.setdefault('unsupported', []).append(f"{cfg['strategy']}/{'stream' if cfg.get('stream') else 'plain'}: {ex}")
+        for leaf in leaves():
             n += 1
             tr = [e for e in leaf.events if e[0] != 'poll_loop']
             st = leaf.status
